@@ -348,6 +348,15 @@ func init() {
 			}
 			return lower(r, types.Bool)
 		})
+		// vUFTable: from now on look-ups in this []uint32 (256 entries) are the uninterpreted function UF32_<name>
+		reg(p+"vUFTable", func(i *interpreter, fr *frame, fn *ssa.Function, a []value) value {
+			cells := a[1].([]value)
+			if i.ps.ufTables == nil {
+				i.ps.ufTables = map[*value]string{}
+			}
+			i.ps.ufTables[&cells[0]] = smtName(argStr(a[0]))
+			return nil
+		})
 		// vUF32: an uninterpreted function byte -> uint32 (used for the buzhash table)
 		reg(p+"vUF32", func(i *interpreter, fr *frame, fn *ssa.Function, a []value) value {
 			return lower(i.ps.ctx.App("UF32_"+smtName(argStr(a[0])), 32, i.term(a[1])), types.Uint32)
